@@ -210,8 +210,11 @@ func (this *RaftTransport) learnAddresses() bool {
 		for err == nil {
 			var node *pb.Node
 			if node, err = nodesStream.Recv(); err == nil {
-				this.clusterConn.AddNode(node.GetId(), node.GetAddress())
-				learned = true
+				// Only a hint: the other member may not have applied a removal yet
+				// that this node has, listing the node would bring it back for good
+				if this.clusterConn.AddNodeAddressHint(node.GetId(), node.GetAddress()) {
+					learned = true
+				}
 			}
 		}
 		cancelCtx()
